@@ -8,6 +8,7 @@ from warnings import warn
 from quansino.mc.canonical import Canonical
 from quansino.mc.contexts import ExchangeContext
 from quansino.mc.criteria import CanonicalCriteria, GrandCanonicalCriteria
+from quansino.moves.composite import CompositeMove
 from quansino.moves.displacement import DisplacementMove
 from quansino.moves.exchange import ExchangeMove
 
@@ -208,12 +209,22 @@ class GrandCanonical(
         """Save the current state of the context and update move labels."""
         notified = set()
 
-        for move_storage in self.moves.values():
-            if id(move_storage.move) not in notified:
-                notified.add(id(move_storage.move))
-                move_storage.move.on_atoms_changed(
+        def notify(move) -> None:
+            if id(move) in notified:
+                return
+
+            notified.add(id(move))
+
+            if isinstance(move, CompositeMove):
+                for sub_move in move.moves:
+                    notify(sub_move)
+            else:
+                move.on_atoms_changed(
                     self.context._added_indices, self.context._deleted_indices
                 )
+
+        for move_storage in self.moves.values():
+            notify(move_storage.move)
 
         super().save_state()
 
